@@ -24,6 +24,7 @@
                                  C17_app_other_events
      C17_ex_app_partial_tail     C17_app_partial_tail_waits, C17_app_partial_buffer_is_permanent
      C17_ex_app_writes           (C17_app_send_guard again: writes of 2, 3 and 4 MSS, numbering stays consecutive)
+     C17_ex_app_plain            C17_app_plain_is_on_wake
    Unconditional (no hypotheses beyond typing binders): C17_fr_ssthresh_is_max, C17_cubic_friendliness_gain,
      C17_gen_timer_expired, C17_gen_dupack_over, C17_gen_fast_retransmit, C17_gen_more_dupacks, C17_gen_cubic_consts,
      C17_gen_cubic_timer_expired.
@@ -391,3 +392,23 @@ Theorem C17_ex_app_writes :
   send_buffer (sW 1) = 1024 /\ send_buffer (sW 2) = 2560.
 Proof. repeat split; vm_compute; reflexivity. Qed.
 Print Assumptions C17_ex_app_writes.
+
+(* No application configured, on the Reno history of Tcp/SenderExamples.v: the plain configuration over [cS]
+   (MSS 512, 4096 bytes) satisfies the hypotheses of C17_app_plain_is_on_wake; in [sWk] (after wake, ACK 512,
+   hand-off) Sender.on_wake sends segments 1024 and 1536 and then waits on the store, and the application
+   layer's run(), resumed in the same state, does exactly the same -- with fuel 12 and with fuel 5000. *)
+Definition acS : acfg := mkacfg cS 0 None None None.
+Theorem C17_ex_app_plain :
+  ac_arr acS = None /\ ac_siz acS = None /\ ac_finish acS = None /\ Qeq_bool (ac_start acS) 0 = true /\
+  0 < mss (ac_cfg acS) /\ ap_sleep app0 = None /\
+  (exists s', on_wake (ac_cfg acS) sWk = Ok s' [Tx 1024 512; TStart 1024 (rto sWk); Tx 1536 512; TStart 1536 (rto sWk)] /\
+     next_seq s' = 2048 /\ waiting s' = true /\
+     astep fxA 12 acS sWk app0 (AWake 1) = AOk s' (mkapp 0 None true O O) [Tx 1024 512; TStart 1024 (rto sWk); Tx 1536 512; TStart 1536 (rto sWk)] /\
+     astep fxA 5000 acS sWk app0 (AWake 1) = astep fxA 12 acS sWk app0 (AWake 1)).
+Proof.
+  split; [reflexivity|]. split; [reflexivity|]. split; [reflexivity|]. split; [reflexivity|].
+  split; [reflexivity|]. split; [reflexivity|].
+  eexists. split; [vm_compute; reflexivity|]. split; [reflexivity|]. split; [reflexivity|].
+  split; vm_compute; reflexivity.
+Qed.
+Print Assumptions C17_ex_app_plain.
